@@ -207,6 +207,7 @@ func (pc *parallelChunker) splitTasks(tasks []*subtree) ([]*subtree, error) {
 func (pc *parallelChunker) createChunks(ctx context.Context, wf writerFactory, tasks []*subtree) ([]hash.Hash, error) {
 	group, ctx := errgroup.WithContext(ctx)
 
+	verifhook.AtN("checkpoint.createChunks.tasks", len(tasks))
 	chunks := make([]hash.Hash, len(tasks))
 	var mu sync.Mutex
 	for i, task := range tasks {
